@@ -164,7 +164,7 @@ class EstimCase:
                     ][-3:]
                 })
         finally:
-            simmp.reap_all()
+            simmp.collect()
 
     # ------------------------------------------------------------- ops ----
     def step(self, op):
